@@ -100,13 +100,18 @@ def r1_paired_fields(ctx):
                   detail=b, expected=[f"self._keys.remove({arg})", f"del self._data[{arg}]"])
     gi = ctx.fn(PT, "ParameterTable.__getitem__")
     k = gi.args.args[1].arg
-    ps, unk = consistent(paths(gi), lambda e: {"self._keys is None": False, "self._keys is not None": True, f"isinstance({k}, int)": True}.get(norm(e)))
-    rets = sorted({norm(e.resolved) for q in ps for e in q.events if e.kind == "return"})
-    if unk or not rets:
-        ctx.unrecognised(PT, "ParameterTable.__getitem__", "positional access goes through the key list", f"path for an integer index of a keyed table not identified ({sorted(set(unk))[:2]})")
+    gps = paths(gi)
+    rows, unk = {}, []
+    for kind in ("int", "str", "other hashable"):
+        cs, u = consistent(gps, lambda e, _k=kind: {"self._keys is None": False, "self._keys is not None": True, f"isinstance({k}, int)": _k == "int",
+                                                    f"isinstance({k}, str)": _k == "str", f"isinstance({k}, (int, np.integer))": _k == "int"}.get(norm(e)))
+        unk += u
+        rows[kind] = sorted({norm(e.resolved) for q in cs for e in q.events if e.kind == "return"})
+    if unk or not all(rows.values()):
+        ctx.unrecognised(PT, "ParameterTable.__getitem__", "positional access goes through the key list", f"paths of a keyed table not identified ({sorted(set(unk))[:2]})")
     else:
-        ctx.check(rets == [f"self._data[self._keys[{k}]]"], PT, "ParameterTable.__getitem__", "positional access goes through the key list", detail=rets,
-                  expected=f"self._data[self._keys[{k}]]")
+        want = {"int": [f"self._data[self._keys[{k}]]"], "str": [f"self._data[{k}]"], "other hashable": [f"self._data[{k}]"]}
+        ctx.check(rows == want, PT, "ParameterTable.__getitem__", "positional access goes through the key list", detail=rows, expected=want)
     si = ctx.fn(PT, "ParameterTable.__setitem__")
     ctx.form("self.append(key, values)" in norm(si), PT, "ParameterTable.__setitem__", "item assignment is append (same paired update)")
     ks = ctx.fn(PT, "ParameterTable.keys")
